@@ -17,7 +17,7 @@ PARAM_NAMES = ["p", "q"]
 
 NICE = [0.25, 0.5, 1.0, 1.5, 2.0, 3.0, -0.25, -0.5, -1.0, -1.5, -2.0, -3.0]
 CONSTS = [0, 1, 2, 3, -1, -2, 0.5, -0.5, 1.5, 2.5, 4, 0.25]
-CONST_KINDS_R = ["pyint", "pyfloat", "npfloat64", "npint64", "arr0d", "Constant"]
+CONST_KINDS_R = ["pyint", "pyfloat", "npfloat64", "npint64", "arr0d", "Constant", "npfloat32", "npuint8", "npint32"]
 POW_EXPS = [0, 1, 2, 3, 4, -1, -2, 0.5, 1.5, 2.5, -0.5]
 
 
@@ -26,6 +26,8 @@ TINY_POOLS = {"scalars": ["x", "y", "z"], "vectors": ["x", "v"], "matrices": ["A
 
 
 def _kind_ok(kind, value):
+    if kind == "npuint8":
+        return float(value) == int(value) and 0 <= value <= 255
     if kind in ("pyint", "npint64", "npint32"):
         return float(value) == int(value)
     return True
@@ -501,7 +503,7 @@ class G:
         n = vsize(V, self.env)
         op = self.draw(st.sampled_from(["+", "-", "*", "/"] + (["**"] if vclass(V) != "var" else [])))
         side = self.draw(st.sampled_from(["right", "right", "left"]))
-        kinds = ["pyint", "pyfloat", "npfloat64"] + (["npint64", "npint32"] if self.cfg.vec_np_scalar else [])
+        kinds = ["pyint", "pyfloat", "npfloat64"] + (["npint64", "npint32", "npuint8", "npfloat32"] if self.cfg.vec_np_scalar else [])
         ops = [(3, lambda: self.num_operand(kinds))]
         if op != "**":
             if side == "right" or self.cfg.vec_left_array or op in ("+", "*"):
